@@ -1370,6 +1370,32 @@ def run_c04(ctx):
         # the plain release profile (no overflow checks): wrap-around instead of panic must not hang or crash either
         ctx.run_stream([ctx.case(c.meta["stream"] + "-plain", c.text, c.cfg, cursors=c.cursors) for c in cases[:: 2]],
                        mode="fmt", plain=True, panics_are_failures=True, per_case_timeout=1.0)
+    # the real binary with its most verbose logging: the trace printers (the parser's, the line formatter's per-line dump of every
+    # solution) run over the same data and must neither abort nor blow up - inputs whose first token is a multi-line comment or
+    # literal included (finding F44: the dump derived a column by plain subtraction)
+    import subprocess as _sp4
+    logdir = cli.workdir("C04log")
+    ctx.workdirs.append(logdir)
+    firsts = ["{\n}\nfoo;\n", "(* a\n b *) x := 1;\n", "'''\n  a\n  '''.Foo(1);\n", "{ one\n two }\n{ three\n four }\nbegin end.\n", "// c\n{\n}\n", "{$IFDEF A}\n{ x\n y }\n{$ENDIF}\nA;\n",
+              "{\r\n}\r\nfoo;\r\n", "begin\n  { a\n b } Foo;\nend.\n", "X := '''\n a\n ''';\n"]
+    log_inputs = firsts + [s_["text"] for s_ in gen.seeds()[:: ctx.n(12, 2)] if len(s_["text"]) < 1500] + [gen.soup(rng, 2, 10) for _ in range(ctx.n(60, 600))] \
+        + [t for t, _ in placement_sample(ctx)[:: 8]]
+
+    def one_log(text):
+        try:
+            p_ = _sp4.run([build.PASFMT, "--config-file", cli.empty_cfg(logdir), "--log-level", "TRACE"], input=text.encode("utf-8"), stdout=_sp4.PIPE, stderr=_sp4.DEVNULL,
+                          cwd=logdir, env=cli.BASE_ENV, timeout=20)
+            return p_.returncode, p_.stdout
+        except _sp4.TimeoutExpired:
+            return "timeout", b""
+    for text, (rc, out) in zip(log_inputs, cli.pmap(one_log, log_inputs)):
+        ctx.count("trace_logging_runs")
+        c = ctx.case("tracelog", text, gen.DEFAULT_CFG)
+        ctx.note_case(c)
+        if rc == "timeout":
+            ctx.fail("hang", c, "pasfmt --log-level TRACE: no result within 20 s", site="trace-logging")
+        elif rc not in (0,) and (rc < 0 or rc == 101 or rc >= 128):
+            ctx.fail("abort", c, "pasfmt --log-level TRACE: exit status %r" % rc, site="trace-logging")
     # scaling: sequences and nestings of conditional blocks must not multiply the work
     import time as _t
     times = []
